@@ -1609,8 +1609,8 @@ func immutableValuesAreNotWrittenByTheirMethods(c *core.Ctx) {
 }
 
 func fieldNameOf(nt *types.Named, i int) string {
-	if st, ok := nt.Underlying().(*types.Struct); ok && i < st.NumFields() {
-		return st.Field(i).Name()
+	if st, ok := nt.Underlying().(*types.Struct); ok && i >= 0 && i < st.NumFields() {
+		return anchorName(nt, i) // the name the rules know the field by (fieldhints.go)
 	}
 	return "?"
 }
